@@ -64,7 +64,9 @@ type keyCase struct {
 	DECKPAM bool   `json:"deckpam"`
 	Written string `json:"written,omitempty"`
 	Locks   string `json:"locks,omitempty"`
-	Between string `json:"between_modes_and_key,omitempty"`
+	// EventType of the forwarded key: "" = press
+	EventType string `json:"event_type,omitempty"`
+	Between   string `json:"between_modes_and_key,omitempty"`
 }
 
 var named = []struct {
@@ -195,6 +197,15 @@ func runKeys(w *harness.W, s spec) {
 				kc.Between = fmt.Sprintf("%q", between)
 			}
 			k := vaxis.Key{Keycode: kc.Keycode, Modifiers: vaxis.ModifierMask(kc.Mods), Text: kc.Text}
+			// a held key (repeat) and a key delivered inside a paste are keys too
+			switch (i / 3) % 4 {
+			case 1:
+				k.EventType = vaxis.EventRepeat
+				kc.EventType = "repeat"
+			case 2:
+				k.EventType = vaxis.EventPaste
+				kc.EventType = "paste"
+			}
 			// lock states reported by a host speaking the kitty protocol are not
 			// part of the chord: same bytes with Caps Lock / Num Lock on
 			if kc.Keycode >= 0x7f || kc.Keycode < 0x20 {
